@@ -217,6 +217,14 @@ func (c *Check) Finish(verifDir string) int {
 			samples = append(samples, o)
 		}
 	}
+	var allKeys []string
+	for _, o := range c.Obls {
+		k := o.Rule + " " + o.Key
+		if o.Config != "" {
+			k += " [" + o.Config + "]"
+		}
+		allKeys = append(allKeys, k+" : "+o.Status)
+	}
 	var funcs []string
 	for f := range c.Funcs {
 		funcs = append(funcs, f)
@@ -246,6 +254,7 @@ func (c *Check) Finish(verifDir string) int {
 		"rules":               c.RuleDoc,
 		"undecided":           und,
 		"exhaustive":          false,
+		"all_obligations":     allKeys,
 	}
 	for k, v := range c.Extra {
 		cov[k] = v
